@@ -64,7 +64,7 @@ func c05Eval(c *mon.Ctx, hw *mon.HangWatch, inf *mon.Inflight, w int, k *c05Case
 	p, st = mon.Try(func() {
 		d1, e1 = m.Data()
 		t1, te1 = m.Tags()
-		ms1 = m.ToMapStr()
+		ms1 = deepCopyMapStr(m.ToMapStr())
 		d1 = copyMap(d1)
 		t1 = append([]string(nil), t1...)
 		d2, e2 = m.Data()
@@ -242,4 +242,23 @@ func init() {
 			c05Eval(c, hw, &mon.Inflight{}, 0, k)
 		},
 	})
+}
+
+// deepCopyMapStr copies the map and the slices / maps in it, so that a later call that rewrites storage the
+// first result still points into cannot make the two results look equal.
+func deepCopyMapStr(m map[string]interface{}) map[string]interface{} {
+	out := make(map[string]interface{}, len(m))
+	for k, v := range m {
+		switch x := v.(type) {
+		case []string:
+			out[k] = append([]string(nil), x...)
+		case map[string]string:
+			out[k] = copyMap(x)
+		case map[string]interface{}:
+			out[k] = deepCopyMapStr(x)
+		default:
+			out[k] = v
+		}
+	}
+	return out
 }
